@@ -153,6 +153,16 @@ def _body(case, ctx, ax, x, y, tag, amp, idata):
             ctx.fail("axis-roundtrip", tag, length=back.length, atype=back.atype)
         else:
             ctx.close("axis-roundtrip", idata(back), x, rtol=1e-10, scale=span, where=tag)
+    # the same round trip through a copy of the conjugate axis (spectrum containers keep copies of axes)
+    ok, back = guarded(ctx, "axis-roundtrip",
+                       lambda: ax.get_FrequencyAxis().copy().get_TimeAxis() if dom == "time"
+                       else ax.get_TimeAxis().copy().get_FrequencyAxis(), tag + "/via-copy")
+    if ok:
+        span = float(numpy.max(numpy.abs(x))) + step
+        if back.length != n or back.atype != atype:
+            ctx.fail("axis-roundtrip", tag + "/via-copy", length=back.length, atype=back.atype)
+        else:
+            ctx.close("axis-roundtrip", idata(back), x, rtol=1e-10, scale=span, where=tag + "/via-copy")
 
     # ---- transform -------------------------------------------------------
     route = case.get("route", "ctor")
